@@ -392,8 +392,21 @@ func keysAreInsertionOrdered(r *an.Run) {
 					good, why = false, "Keys() returns something other than append(<keys of the underlying Data>, <own key>)"
 					continue
 				}
-				base, isCall := app.Call.Args[0].(*ssa.Call)
-				if !isCall || !base.Call.IsInvoke() || base.Call.Method.Name() != "Keys" {
+				isKeysCall := func(x ssa.Value) bool {
+					c, ok := x.(*ssa.Call)
+					return ok && c.Call.IsInvoke() && c.Call.Method.Name() == "Keys"
+				}
+				base := app.Call.Args[0]
+				parentFirst := isKeysCall(base)
+				if inner, ok := base.(*ssa.Call); ok && !parentFirst && an.IsCallTo(inner, "builtin:append") && len(inner.Call.Args) == 2 {
+					// a pre-sized copy: append(make([]T, 0, n), parent.Keys()...)
+					if ms, ok := inner.Call.Args[0].(*ssa.MakeSlice); ok {
+						if k, isc := an.ConstInt(ms.Len); isc && k == 0 && isKeysCall(inner.Call.Args[1]) {
+							parentFirst = true
+						}
+					}
+				}
+				if !parentFirst {
 					good, why = false, "the list Keys() appends to is not the Keys() of the Data it was built on"
 					continue
 				}
